@@ -152,17 +152,29 @@ _Q_COUNTERS = {
     'hist:final-format-after-mid-format-and-edit': 2000, 'hist:final-format-after-older-block-edit': 2000,
 }
 _T_COUNTERS = {
-    'warn:bad-trailer': 28000, 'warn:bad-urgency-value': 18000, 'warn:empty-file': 25, 'warn:eof-inside-block': 94000,
-    'warn:invalid-key-value': 26000, 'warn:repeated-key': 26000, 'warn:unexpected-line-at-start-of-changes': 200000,
-    'warn:unexpected-line-before-first-heading': 195000, 'warn:unexpected-line-between-blocks': 195000,
-    'warn:unexpected-line-in-changes': 240000,
-    'sole:bad-trailer': 4700, 'sole:bad-urgency-value': 1500, 'sole:empty-file': 25, 'sole:eof-inside-block': 14500,
-    'sole:invalid-key-value': 2300, 'sole:repeated-key': 4500, 'sole:unexpected-line-at-start-of-changes': 80000,
-    'sole:unexpected-line-before-first-heading': 80000, 'sole:unexpected-line-between-blocks': 89000,
-    'sole:unexpected-line-in-changes': 115000,
-    'strict:accepted': 320000, 'strict:raised': 670000, 'normalform:eof-block': 74000, 'normalform:rich-heading': 515000,
-    'op:new_block': 210000, 'op:add_change': 230000, 'op:set': 150000, 'op:bset': 77000,
-    'hist:from-empty': 60000, 'hist:from-parsed': 90000,
+    'warn:bad-trailer': 80000, 'warn:bad-urgency-value': 24000, 'warn:empty-file': 25,
+    'warn:eof-inside-block': 92000, 'warn:invalid-key-value': 38000, 'warn:repeated-key': 34000,
+    'warn:unexpected-line-at-start-of-changes': 190000, 'warn:unexpected-line-before-first-heading': 190000,
+    'warn:unexpected-line-between-blocks': 210000, 'warn:unexpected-line-in-changes': 250000,
+    'sole:bad-trailer': 47000, 'sole:bad-urgency-value': 7000, 'sole:empty-file': 25, 'sole:eof-inside-block': 14000,
+    'sole:invalid-key-value': 14000, 'sole:repeated-key': 10000, 'sole:unexpected-line-at-start-of-changes': 82000,
+    'sole:unexpected-line-before-first-heading': 84000, 'sole:unexpected-line-between-blocks': 100000,
+    'sole:unexpected-line-in-changes': 130000, 'strict:accepted': 360000, 'strict:raised': 780000,
+    'normalform:eof-block': 73000, 'normalform:rich-heading': 600000, 'op:new_block': 270000,
+    'op:add_change': 250000, 'op:set': 170000, 'op:bset': 210000, 'hist:from-empty': 71000,
+    'hist:from-parsed': 140000, 'multi:texts': 190000, 'multi:normalform-on-2+-blocks': 160000,
+    'multi:warned-and-2+-blocks': 110000, 'multi:bad-trailer-accepted-in-non-last-block': 49000,
+    'multi:irregular-in-middle-block': 44000, 'multi:family:own-trailer-one-space': 41000,
+    'multi:family:trailer-junk': 27000, 'multi:family:heading-junk': 27000,
+    'multi:family:own-heading-variant': 27000, 'multi:family:between': 27000, 'multi:family:in-changes': 13000,
+    'multi:family:layout': 13000, 'multi:family:slurp': 13000, 'op:badd': 92000, 'op:seteach': 15000,
+    'op:fmt': 100000, 'op:fmt-block': 23000, 'op:edit-after-mid-format': 220000, 'older:bset': 110000,
+    'older:badd': 61000, 'older:seteach': 15000, 'older:edit-after-mid-format': 100000, 'older-attr:author': 14000,
+    'older-attr:date': 14000, 'older-attr:urgency': 14000, 'older-attr:distributions': 14000,
+    'older-attr:package': 14000, 'older-attr:version': 14000, 'older-attr:urgency_comment': 14000,
+    'older-attr:other_pairs': 14000, 'older-attr:changes': 61000, 'handle:index': 60000, 'handle:neg': 39000,
+    'handle:iter': 38000, 'handle:list': 39000, 'hist:final-format-after-mid-format-and-edit': 72000,
+    'hist:final-format-after-older-block-edit': 79000,
 }
 FLOORS = {
     'quick': {'nontrivial': 13000,
@@ -170,9 +182,10 @@ FLOORS = {
                            'M.history-mid': 2300, 'M.model': 23000, 'M.blockwise': 63000,
                            'P.state-line': 430000},
               'counters': _Q_COUNTERS},
-    'thorough': {'nontrivial': 470000,
-                 'monitors': {'M.total': 1000000, 'M.strict': 1000000, 'M.normalform': 970000, 'M.history': 125000,
-                              'P.state-line': 15000000},
+    'thorough': {'nontrivial': 600000,
+                 'monitors': {'M.total': 1150000, 'M.strict': 1150000, 'M.normalform': 1120000, 'M.history': 190000,
+                              'M.history-mid': 87000, 'M.model': 1150000, 'M.blockwise': 2800000,
+                              'P.state-line': 20000000},
                  'counters': _T_COUNTERS},
 }
 
